@@ -267,6 +267,11 @@ class Group:
     def touch(self, mid):
         if mid in self.members:
             self.members[mid]["last_seen"] = self.now()
+            self._arm(self.members[mid])
+
+    def _arm(self, m):
+        """session expiry is timer driven (a member blocked in SyncGroup sends nothing)"""
+        asyncio.get_event_loop().call_later(m["session"] / 1000 + 0.002, self.check_sessions)
 
     def _prepare_rebalance(self):
         if self.state == "PreparingRebalance":
@@ -325,6 +330,7 @@ class Group:
             f = m["join_fut"]
             m["join_fut"] = None
             m["last_seen"] = self.now()
+            self._arm(m)
             if not f.done():
                 f.set_result((0, self.generation, self.protocol, self.leader, mid, meta if mid == self.leader else []))
 
@@ -335,6 +341,8 @@ class Group:
             m = self.members[mid]
             if m.get("join_fut") is not None:
                 continue
+            if m.get("sync_fut") is not None and not m["sync_fut"].done():
+                continue  # blocked in SyncGroup: its request is in flight, the member is alive
             if now - m["last_seen"] > m["session"] / 1000:
                 del self.members[mid]
                 dropped = True
@@ -1008,6 +1016,7 @@ class SimConn:
         self._versions = dict(cluster.versions)
         self.pending = set()
         self.close_reasons = []
+        self.client_id = kw.get("client_id")
         cluster.conns.append(self)
 
     def connected(self):
@@ -1038,7 +1047,8 @@ class SimConn:
         loop = asyncio.get_event_loop()
         c.request_no += 1
         no = c.request_no
-        entry = {"no": no, "time": loop.time(), "node": self.node, "req": describe(req), "reply": None, "fault": None}
+        entry = {"no": no, "time": loop.time(), "node": self.node, "req": describe(req), "reply": None, "fault": None,
+                 "client": self.client_id, "reply_obj": None, "reply_time": None}
         c.arrivals.append(entry)
         fault = c.fault_fn(c, self.node, req, entry) if c.fault_fn else None
         entry["fault"] = fault
@@ -1057,7 +1067,7 @@ class SimConn:
             await asyncio.wait([gate], timeout=c.latency)
             if gate.done():
                 gate.result()
-            if self.node in c.down or fault == "drop_before":
+            if self.node in c.down or fault == "drop_before" or self.client_id in getattr(c, "blackhole", ()):
                 self.close(reason="sim-drop")
                 raise E.KafkaConnectionError("connection dropped before the request was applied")
             if isinstance(fault, tuple) and fault[0] == "error":
@@ -1077,6 +1087,8 @@ class SimConn:
                 if isinstance(fault, tuple) and fault[0] == "error_after":
                     resp = error_response(req, fault[1])  # applied, then answered with an error
             entry["reply"] = summarize(resp)
+            entry["reply_obj"] = resp
+            entry["reply_time"] = loop.time()
             if fault == "drop_after":
                 self.close(reason="sim-drop")
                 raise E.KafkaConnectionError("connection dropped after the request was applied (reply lost)")
@@ -1201,10 +1213,10 @@ class installed:
         async def create_conn(host, port, **kw):
             node = int(host[1:]) if host.startswith("h") and host[1:].isdigit() else c.nodes[0]
             await asyncio.sleep(c.latency)
-            if node in c.down:
+            if node in c.down or kw.get("client_id") in getattr(c, "blackhole", ()):
                 raise E.KafkaConnectionError(f"Unable to connect to {host}:{port}")
             return SimConn(c, host, port, on_close=kw.get("on_close"),
-                           request_timeout_ms=kw.get("request_timeout_ms", 40000))
+                           request_timeout_ms=kw.get("request_timeout_ms", 40000), client_id=kw.get("client_id"))
 
         self.saved = (CLIENT.create_conn, CLIENT.random)
         CLIENT.create_conn = create_conn
